@@ -751,7 +751,7 @@ fn main() {
     }
 
     // --- seeded random multigraphs ------------------------------------------------------------
-    let ngraphs = args.budget(70, 2500);
+    let ngraphs = args.budget(75, 1500);
     for i in 0..ngraphs {
         let ops = gen_script(&mut rng, &mut dist, 24);
         run_graph(&mut rng, &ops, &format!("graph#{i}"), &mut k, &mut dist, !args.thorough());
